@@ -59,9 +59,10 @@ theorem EngineTie_setupImpl (s : Sess) (t : TaskSpec) {name : String} (hn : name
 theorem EngineTie_setupChain (s : Sess) (t : TaskSpec) :
     setupChainGen P g cfg s t Generated.setupOrder = setupChain P g cfg s t Generated.setupOrder := setupChainGen_eq s t
 
-/-- Setup, `pytask_execute_task` (the dry-run guard comes before the call of the task function) and the teardown (its
-checks in extracted order; the "vanished predecessor" check never fires in the model because a body only adds
-files) together compute the model's `runPhases`. -/
+/-- Setup, the `pytask_execute_task` hook (pluggy's call order `Generated.executeOrder`, firstresult: wrappers pass the
+result through, provisional.py's implementation only acts for task generators, execute.py's implementation has its
+dry-run guard before the call of the task function) and the teardown (its checks in extracted order; the "vanished
+predecessor" check never fires in the model because a body only adds files) together compute the model's `runPhases`. -/
 theorem EngineTie_runPhases (s : Sess) (t : TaskSpec) : runPhasesGen F P g cfg s t = runPhases F P g cfg s t :=
   runPhasesGen_eq s t
 
